@@ -275,11 +275,13 @@ Definition in_progress (x : option pstate) : bool :=
   | _ => false
   end.
 Definition is_open (x : option pstate) : bool := match x with Some (Open _) => true | _ => false end.
+(* the substream id an outbound attempt in progress waits for (an id merely remembered in
+   PeerState::Closed is not waited for: since the repair of the former finding class 2 it is adopted by
+   an open request only while pending_outbound still lists it) *)
 Definition waits_for (x : option pstate) : option sid :=
   match x with
   | Some (OutInit y) => Some y
   | Some (Validating _ (OInit y) _) => Some y
-  | Some (Closed (Some y)) => Some y
   | _ => None
   end.
 
@@ -298,20 +300,19 @@ Record omem := mkOmem {
   m_opened : peer -> bool;              (* user view: last of Opened/Closed was Opened *)
   m_gated : peer -> bool;               (* a Connection task of the peer may be slow to close *)
   m_req : list (sid * peer);            (* open_substream requests not answered by the case *)
-  m_failed : list sid;                  (* requests answered with a failure *)
   m_cnt : N;                            (* NotificationStreamOpened events so far = stream periods *)
   m_sink : peer -> option N;            (* the period whose sink the handle holds for the peer *)
   m_usink : peer -> option N            (* the period of the sink clone the user keeps *)
 }.
 
 Definition omem0 : omem :=
-  mkOmem [absent; absent; absent] (fun _ => false) (fun _ => false) [] [] 0 (fun _ => None) (fun _ => None).
+  mkOmem [absent; absent; absent] (fun _ => false) (fun _ => false) [] 0 (fun _ => None) (fun _ => None).
 
-(* failures: bit 0 = outside every known class, bit 1 = class 1 (slow close), bit 2 = class 2
-   (failed substream id kept pending), bit 3 = class 3 (user Reject drops the open request) *)
+(* failures: bit 0 = outside every known class, bit 1 = class 1 (slow close), bit 3 = class 3 (user
+   Reject drops the open request); class 2 (failed substream id adopted by the next open request) was
+   repaired in the code and is an ordinary violation now *)
 Definition F_GEN : N := 1.
 Definition F_SLOW : N := 2.
-Definition F_KEPT : N := 4.
 Definition F_REJ : N := 8.
 
 (* grammar of the user-visible events of one step, in order *)
@@ -371,11 +372,6 @@ Definition check_step (c : cfg) (m : omem) (o : op) (x : sobs) : omem * N :=
         match first_req q (m_req m) with Some y => pend_remove y (m_req m) | None => m_req m end
     | _ => m_req m
     end in
-  let failed :=
-    match o with
-    | OpenFail q => match first_req q (m_req m) with Some y => y :: m_failed m | None => m_failed m end
-    | _ => m_failed m
-    end in
   let req := req0 ++ flat_map (fun cl => match cl with COpen q y => [(y, q)] | _ => [] end) (o_calls x) in
   (* 1. isolation: nothing about other peers changes, nothing is said about other peers *)
   let iso :=
@@ -430,12 +426,11 @@ Definition check_step (c : cfg) (m : omem) (o : op) (x : sobs) : omem * N :=
     negb (in_progress (o_ps pre)) || in_progress (o_ps post) ||
     (is_open (o_ps post) && has_opened p (o_ev x)) || has_fail p (o_ev x) in
   let rej := match o with Validate _ false => true | _ => false end in
-  (* 7. a substream id the protocol waits for is still owed by the transport *)
+  (* 7. a substream id an attempt in progress waits for is still owed by the transport (the request can
+     still be answered): never an id whose open has already failed or that belongs to a closed connection *)
   let owed :=
     match waits_for (o_ps post) with
-    | Some y =>
-        if existsb (fun e => fst e =? y) req then 0
-        else if existsb (N.eqb y) failed then F_KEPT else F_GEN
+    | Some y => if existsb (fun e => (fst e =? y) && (snd e =? p)) req then 0 else F_GEN
     | None => 0
     end in
   (* 8. "can send notifications only between the two": a frame reaches a substream only in a send
@@ -460,7 +455,7 @@ Definition check_step (c : cfg) (m : omem) (o : op) (x : sobs) : omem * N :=
     | _ => m_usink m
     end in
   let '(cnt', sink') := sinks (m_cnt m) (m_sink m) (o_ev x) in
-  (mkOmem (o_peers x) opened' gated req failed cnt' sink' usink',
+  (mkOmem (o_peers x) opened' gated req cnt' sink' usink',
    N.lor (flag (iso && acc && cl && ans && send && (leave || rej)) F_GEN)
          (N.lor (flag (leave || negb rej) F_REJ) (N.lor fg owed))).
 
@@ -469,7 +464,7 @@ Definition check_step (c : cfg) (m : omem) (o : op) (x : sobs) : omem * N :=
 Definition check_batch (m : omem) (x : sobs) : omem * N :=
   let '(opened', fg) := grammar (m_opened m) (m_gated m) (o_ev x) in
   let '(cnt', sink') := sinks (m_cnt m) (m_sink m) (o_ev x) in
-  (mkOmem (o_peers x) opened' (m_gated m) (m_req m) (m_failed m) cnt' sink' (m_usink m), fg).
+  (mkOmem (o_peers x) opened' (m_gated m) (m_req m) cnt' sink' (m_usink m), fg).
 
 Fixpoint check_steps (c : cfg) (m : omem) (ops : list gop) (tr : list sobs) : N :=
   match ops, tr with
@@ -559,9 +554,8 @@ Definition verdict_any (case trace : list N) : N :=
 
 Definition prop_ok (case trace : list N) : bool := verdict_any case trace =? 0.
 
-(* class 1: KNOWN_FINDINGS "slow close"; class 2: "failed substream id kept pending"; class 3: "the
-   user's Reject drops the user's own open request without an answer" *)
+(* class 1: KNOWN_FINDINGS "slow close"; class 3: "the user's Reject drops the user's own open request
+   without an answer" (class 2, "failed substream id kept pending", was repaired: no longer a class) *)
 Definition known_class (case trace : list N) : N :=
   let v := verdict_any case trace in
-  if N.testbit v 0 then 0 else if N.testbit v 1 then 1 else if N.testbit v 2 then 2
-  else if N.testbit v 3 then 3 else 0.
+  if N.testbit v 0 then 0 else if N.testbit v 1 then 1 else if N.testbit v 3 then 3 else 0.
